@@ -1,8 +1,14 @@
 """Property -> rules.  A rule is evaluated by every property whose statement it is a necessary
 condition of (DESIGN §4 'Shared obligations')."""
-from . import successor, attack, uci_rules, draw, fen, search, modes, hash
+from . import successor, attack, uci_rules, draw, fen, search, modes, hash, textmove, timectl
 
 RULES = {
+    "R9.1": ("trace-partitioned on the colour: the slice reads only the mover's clock fields; usable-clock trace has the form k*(clock-s)/movestogo with k<=0.8, s>=100, default>=30; no clock and no increment gives 0", timectl.r9_123),
+    "R9.4": ("the caller passes the side to move and the parsed clock of this go; search thread and polling loop share one (start, slice) deadline", timectl.r9_45),
+    "R3.4": ("clock fields of GameTime are signed and wide", timectl.r3_4),
+    "R4.1": ("make_move event discipline: ep cleared first, exactly one side swap and last, king moves update the cached king square with the destination and remove both rights (path feasibility under the hypothesis kind==King, colour==C)", textmove.r4_1),
+    "R4.3": ("move text <-> rights: for every representative move text touching a rook corner the right is removed (string guards evaluated per text); castling texts trigger the oracle's rook hop", textmove.r4_3),
+    "R4.4": ("play_out_position creates the board with from_fen and mutates it only through make_move", textmove.r4_4),
     "R5.1": ("each helper keeps key and state in step on every path: swap_color, take_away_castling_rights, unset_pawn_double_move, move_piece", hash.r5_1),
     "R5.2": ("every raw write of a hashed component outside the helpers has its XOR in the same control region, and every XOR term has its write (R5.3)", hash.r5_2),
     "R5.4": ("from_fen builds the key from scratch: piece, side, en-passant file and castling terms each under exactly its own condition", hash.r5_4),
@@ -33,8 +39,9 @@ QUICK = {
     "C01": ["R1.1", "R1.3", "R2.1", "R2.2", "R2.3", "R2.4"],
     "C02": ["R2.1", "R2.2", "R2.3", "R2.4"],
     "C05": ["R5.1", "R5.2", "R5.2e", "R5.4", "R5.5", "R5.c"],
-    "C04": ["R5.2", "R5.2e", "R2.1"],
-    "C03": ["R3.2"],
+    "C04": ["R4.1", "R4.3", "R4.4", "R5.2", "R5.2e", "R2.1"],
+    "C03": ["R3.2", "R3.4", "R2.1", "R4.1", "R4.3"],
+    "C09": ["R9.1", "R9.4"],
     "C07": ["R7.1", "R7.2", "R10.5"],
     "C08": ["R8.1"],
     "C11": ["R11.1"],
